@@ -355,3 +355,23 @@ pub fn fixed_key_provider(key: [u8; 32]) -> Provider {
 pub fn failing_provider(e: env::ErrSpec) -> Provider {
     Provider::new(Box::new(move |_r| Err(env::make_err(&e))))
 }
+
+/// Canonical request bytes and string-to-sign as the implementation computes them
+/// (through the crate's `unstable` API); None if it refuses before that point.
+pub fn impl_canonical(w: &WireReq, cfg: &Cfg) -> Option<(Vec<u8>, Option<Vec<u8>>)> {
+    use scratchstack_aws_signature::canonical::CanonicalRequest;
+    let req = w.to_http().ok()?;
+    let r = catch_unwind(AssertUnwindSafe(|| {
+        let (parts, body) = req.into_parts();
+        let (cr, _, _) = CanonicalRequest::from_request_parts(parts, body, cfg.options()).ok()?;
+        let reqs = build_vec_reqs(&cfg.reqs, ReqBuild::VecNew);
+        let ap = cr.get_auth_parameters(&reqs).ok()?;
+        let bytes = cr.canonical_request(&ap.signed_headers);
+        let sts = cr.get_authenticator_from_auth_parameters(ap).ok().and_then(|a| {
+            a.prevalidate(&cfg.region, &cfg.service, to_chrono(cfg.now()), chrono::Duration::minutes(15)).ok()?;
+            Some(a.get_string_to_sign())
+        });
+        Some((bytes, sts))
+    }));
+    r.ok().flatten()
+}
